@@ -212,6 +212,49 @@ func init() {
 		"(*sync/atomic.Pointer).Load":          modelAPLoad,
 		"(*sync/atomic.Pointer).Store":         modelAPStore,
 		"(*sync/atomic.Pointer).CompareAndSwap": modelAPCAS,
+		// ---- wire codec (external): Write only reads the message, Read fills it with arbitrary content
+		"github.com/celestiaorg/go-libp2p-messenger/serde.Write": func(fc *FnCtx, fr *Frame, st *State, instr ssa.Instruction, c *ssa.CallCommon, args []Val, rt types.Type) Val {
+			fc.assumptions["serde.Write does not modify the message it serialises"] = true
+			return havocRes(fc, st, "serdewrite", rt)
+		},
+		"github.com/celestiaorg/go-libp2p-messenger/serde.Read": func(fc *FnCtx, fr *Frame, st *State, instr ssa.Instruction, c *ssa.CallCommon, args []Val, rt types.Type) Val {
+			// only the message object passed in is filled (its direct fields get arbitrary values); the decoder
+			// may allocate sub-objects, so the allocation pointer moves first
+			oldTop := fc.allocTop(st)
+			nt := fc.fresh("allocTop", SInt)
+			fc.assume(st, tGe(nt, oldTop))
+			st.cells[keyAlloc] = nt
+			done := false
+			for i, a := range c.Args {
+				mi, isMI := a.(*ssa.MakeInterface)
+				if !isMI || i >= len(args) {
+					continue
+				}
+				n, isS := isStructPtr(mi.X.Type())
+				ref, isT := args[i].(Term)
+				if !isS || !isT {
+					continue
+				}
+				s := n.Underlying().(*types.Struct)
+				for j := 0; j < s.NumFields(); j++ {
+					f := s.Field(j)
+					if _, nested := isNestedStructField(f.Type()); nested {
+						continue
+					}
+					srt := sortOf(f.Type())
+					hn := structHeapName(n, f.Name())
+					h := fc.heap(st, hn, srt)
+					nv := fc.fresh("decoded_"+f.Name(), srt)
+					fc.assume(st, fc.typeFact(st, nv, f.Type()))
+					fc.setHeap(st, hn, tStore(h, ref, nv))
+				}
+				done = true
+			}
+			if !done {
+				fc.havocPointees(fr, st, c, args)
+			}
+			return havocRes(fc, st, "serderead", rt)
+		},
 		// ---- repo helpers that are pure formatting
 		"github.com/celestiaorg/go-header.formatTime": modelHavoc,
 	}
